@@ -218,6 +218,25 @@ def run(ctx):
                     diff = sp.simplify((d - dv_).rewrite(sp.exp))
                 ctx.check("R03.2", key, diff == 0, f"d/dv [{src(val)}] = {d}, table has `{src(der)}`", mod.relpath, pair)
                 decided2 += 1
+                # the derivative helper must not divide by something that vanishes where function and derivative are regular
+                v0sym = syms[params[0]]
+                inst = {syms[p_]: sp.Integer(2) for p_ in params[1:]}
+                for dn_ in [x.right for x in ast.walk(der) if isinstance(x, ast.BinOp) and isinstance(x.op, ast.Div)]:
+                    try:
+                        D_ = to_sympy(sp, dn_, syms).subs(inst)
+                        if v0sym not in D_.free_symbols:
+                            continue
+                        roots = [r_ for r_ in sp.solve(D_, v0sym) if r_.is_real]
+                        for r_ in roots[:2]:
+                            l_d = sp.limit(d.subs(inst), v0sym, r_)
+                            l_f = sp.limit(fv_.subs(inst), v0sym, r_)
+                            if l_d.is_finite and l_f.is_finite:
+                                ctx.bad("R03.2", key + f" [regular at {params[0]} = {r_}]",
+                                        f"the derivative helper `{src(der)}` divides by `{src(dn_)}`, which vanishes at {params[0]} = {r_} where the "
+                                        f"function and its derivative are finite (e.g. extra arguments = 2: f' -> {l_d}): 0/0 = NaN in the Jacobian",
+                                        mod.relpath, pair)
+                    except Exception:
+                        continue
             except Exception as ex:
                 ctx.und("R03.2", key, f"term not translated: {ex}", mod.relpath, pair)
     # sinc: special structure (value np.sinc(v), derivative on the non-zero branch)
